@@ -1,5 +1,7 @@
 //! mp4verif: property-based testing / fuzzing harness for alfg/mp4-rust (see /verif/DESIGN.md).
+pub mod adv;
 pub mod alloc;
+pub mod driver;
 pub mod engine;
 pub mod gen;
 pub mod io;
